@@ -61,6 +61,14 @@ def structures(tier):
         sts.append({'kind': 'gstring', 'len': L})
     for L in (range(0, 65) if tier == 'thorough' else [0, 1, 31, 32, 33, 63, 64]):
         sts.append({'kind': 'tname', 'len': L, 'prev': L % 2 == 0})
+    # non-ASCII text cannot be symbolic (the decode model is ASCII): concrete UTF-8 texts whose multi-byte characters
+    # straddle every record boundary kind
+    for what, bounds_ in (('lookup', (24, 56, 88)), ('gstring', (16, 48)), ('tname', (32,))):
+        for b in bounds_:
+            for ch in ('\u00e9', '\u20ac', '\U0001f600'):
+                n = len(ch.encode())
+                for off in range(1, n):
+                    sts.append({'kind': 'utf8', 'what': what, 'pre': b - off, 'ch': ch, 'post': 5})
     decs = path_decoders()
     for n in decs:
         for k in (0, 1, 2, 3):
@@ -129,7 +137,42 @@ def _same_text(ctx, s, text):
 
 
 def run(ctx, st):
-    return {'lookup': run_lookup, 'gstring': run_gstring, 'tname': run_tname, 'syscall': run_syscall}[st['kind']](ctx, st)
+    return {'lookup': run_lookup, 'gstring': run_gstring, 'tname': run_tname, 'syscall': run_syscall, 'utf8': run_utf8}[st['kind']](ctx, st)
+
+
+def run_utf8(ctx, st):
+    """concrete UTF-8 text with a multi-byte character across a record boundary, through the untouched pipeline"""
+    by_id, by_name = sweep.codes()
+    text = ('p' * st['pre'] + st['ch'] + 'q' * st['post'])
+    raw = text.encode()
+    what = st['what']
+    if what == 'lookup':
+        recs, _ = _records(K.chunk_lookup(raw, 77), by_name['VFS_LOOKUP'], 100, False)
+        rd = by_name['BSC_stat64']
+        evs = [sweep.make_event(50, [1, 2, 3, 4], TID, rd | 1)] + [e for _, e in recs] + [sweep.make_event(900, [0, 0, 0, 0], TID, rd | 2)]
+    elif what == 'gstring':
+        recs, _ = _records(K.chunk_string(raw, 5, 9), by_name['TRACE_STRING_GLOBAL'], 100, False)
+        evs = [e for _, e in recs]
+    else:
+        recs, _ = _records(K.chunk_simple(raw), by_name['TRACE_STRING_THREADNAME'], 100, False)
+        evs = [e for _, e in recs]
+    p = sweep.new_parser()
+    try:
+        out = list(p.feed_generator(iter(evs)))
+    except Exception as e:      # noqa
+        ctx.check('C08/utf8/%s/no-error' % what, False, '%s: %s' % (type(e).__name__, e)); ctx.reach(); return
+    L = 'C08/utf8/' + what
+    if what == 'lookup':
+        lk = [t for t in out if type(t).__name__ == 'VfsLookup']
+        ctx.check(L + '/text', len(lk) == 1 and lk[0].path == text, 'lookup carries %r' % ([t.path for t in lk],))
+        sc = [t for t in out if type(t).__name__ != 'VfsLookup']
+        ctx.check(L + '/syscall-shows-the-path', len(sc) == 1 and ('"%s"' % text) in str(sc[0]), str(sc[0]) if sc else None)
+    elif what == 'gstring':
+        ctx.check(L + '/text', len(out) == 1 and out[0].vstr == text and p.global_strings.get(9) == text, repr(out))
+    else:
+        ctx.check(L + '/text', len(out) == 1 and out[0].name == text and p.tids_names.get(TID) == text, repr(out))
+    ctx.reach()
+
 
 
 def run_lookup(ctx, st):
